@@ -8,7 +8,8 @@
    from states related by R, RdBounded quantifies over all states of S; `convert_to_archive_sim` would
    have to be re-proved with the bound restricted to an invariant closed under the reads and seeks of
    the run (its content / buf_fill lemmas use the bound at every read).  Missing, said in the report.
-   The trusted link stays ArchiveFileBlock::from = Blocks.parse_block (SrcTie3RepairLoop.block_from). *)
+   ArchiveFileBlock::from is the translated gen/Src3b.v function (SrcTie3RepairLoop.block_from,
+   = Blocks.parse_block by SrcTie3Block.block_from_src): no trusted link is left (work package blockT). *)
 From MLA Require Import Limit.
 From MLA Require Import Base Stream Blocks Writer Repair RepairSpec RepairPure
   RepairProofs2 RepairProofs5 RepairProofs6 SrcTie2 SrcTie3Repair SrcTie3RepairLoop.
@@ -39,7 +40,7 @@ Section CarryRepair.
   Notation wf_blocks := (wf_blocks FNMAX H).
   Notation good_output := (good_output FNMAX T_START T_CONTENT T_EOA T_EOF H).
   (* the TRANSLATED function: output footer in insertion order, layers below accept everything,
-     blocks parsed by Blocks.parse_block *)
+     blocks parsed by the translated ArchiveFileBlock::from (gen/Src3b.v) *)
   Notation g_conv S := (Src3r.convert_to_archive FNMAX CACHE T_START T_CONTENT T_EOA T_EOF H
                           (footer_ser (fun f => f)) (fun _ => Ok tt) S
                           (block_from FNMAX T_START T_CONTENT T_EOA T_EOF S)).
